@@ -47,7 +47,9 @@ class FnTaint:
     def __init__(self, eng, fn):
         self.eng = eng
         self.fn = fn
-        self.place_labels = defaultdict(set)
+        self.place_labels = defaultdict(dict)   # place -> label -> set(def blocks)
+        self._at = None                         # block of the use being evaluated
+        self._reach_cache = {}
         self.label_info = {}       # label -> dict(var, iw, site, callee)
         self._bounded_memo = {}
         self._param_place = {}
@@ -89,6 +91,41 @@ class FnTaint:
             return None
         return None
 
+    def owner_param_place(self, t):
+        """For `p->f` / `p.f` / `(*p).f[..]` with p a parameter: p's place
+        (a callee filling a caller-provided struct labels the struct)."""
+        for _ in range(30):
+            if not isinstance(t, dict):
+                return None
+            k = t.get("k")
+            if k == "field":
+                if "base" not in t:
+                    return None
+                b = t["base"]
+                for _ in range(30):
+                    if not isinstance(b, dict):
+                        return None
+                    kb = b.get("k")
+                    if kb == "var":
+                        pl = ("v", b["d"]) if "d" in b else None
+                        return pl if pl in self._param_place else None
+                    if kb in ("un", "cast", "icast", "copy"):
+                        b = b.get("e")
+                    elif kb == "field":
+                        b = b.get("base")
+                    elif kb == "sub":
+                        b = b.get("base")
+                    else:
+                        return None
+                return None
+            if k in ("un", "cast", "icast", "copy"):
+                t = t.get("e")
+            elif k == "sub":
+                t = t.get("base")
+            else:
+                return None
+        return None
+
     def _initial(self, place):
         """Pseudo labels every read of a param / field carries."""
         if place is None:
@@ -99,13 +136,41 @@ class FnTaint:
             return {("field", place[1], place[2])}
         return set()
 
+    def _reaches(self, d, u):
+        if d is None or u is None or d == u:
+            return True
+        r = self._reach_cache.get(d)
+        if r is None:
+            r = self._reach_cache[d] = self.fn.reachable(start=d)
+        return u in r
+
     def labels_of_place(self, place):
+        """Labels a read of `place` carries at block self._at: a label
+        assigned in block D reaches a use in block U only if U is reachable
+        from D in the CFG (flow-sensitivity 'lite')."""
         if place is None:
             return set()
-        return self.place_labels.get(place, set()) | self._initial(place)
+        out = self._initial(place)
+        defs = self.place_labels.get(place)
+        if defs:
+            at = self._at
+            for l, ds in defs.items():
+                if at is None or any(self._reaches(d, at) for d in ds):
+                    out.add(l)
+        return out
 
     # -- expression labels ---------------------------------------------------
-    def labels(self, t):
+    def labels(self, t, at=None):
+        """Labels of expression t evaluated in block `at` (None: anywhere)."""
+        if at is None:
+            return self._labels(t)
+        prev, self._at = self._at, at
+        try:
+            return self._labels(t)
+        finally:
+            self._at = prev
+
+    def _labels(self, t):
         if not isinstance(t, dict):
             return set()
         k = t.get("k")
@@ -114,7 +179,11 @@ class FnTaint:
         if k == "var" or k == "field":
             if "v" in t and k == "var" and "d" not in t:
                 return set()           # evaluated constant global
-            return set(self.labels_of_place(self.place_of(t)))
+            out = set(self.labels_of_place(self.place_of(t)))
+            if k == "field" and isinstance(t.get("base"), dict):
+                # a field of a labelled object (struct filled by a callee)
+                out |= {l for l in self._labels(t["base"]) if l[0] != "field"}
+            return out
         if k in ("cast", "icast", "copy"):
             if "v" in t:
                 return set()
@@ -211,13 +280,17 @@ class FnTaint:
         return lab
 
     # -- propagation --------------------------------------------------------
-    def _add(self, place, labs):
+    def _add(self, place, labs, at=None):
         if place is None or not labs:
             return False
         cur = self.place_labels[place]
-        n = len(cur)
-        cur |= labs
-        return len(cur) != n
+        changed = False
+        for l in labs:
+            ds = cur.setdefault(l, set())
+            if at not in ds:
+                ds.add(at)
+                changed = True
+        return changed
 
     def _propagate(self):
         fn, eng = self.fn, self.eng
@@ -225,33 +298,39 @@ class FnTaint:
         for _ in range(12):
             changed = False
             for b, kind, tree, ev in roots:
+                self._at = b.id
                 if kind == "decl":
                     var = ev.get("var", {})
                     if tree is not None and "d" in var:
-                        changed |= self._add(("v", var["d"]), self.labels(tree))
+                        changed |= self._add(("v", var["d"]), self._labels(tree), b.id)
                         for s_ in walk(tree):
                             if s_.get("k") == "call" and strip_targs(s_.get("fn") or "") == \
                                     "draco::DecoderBuffer::data_head":
                                 self.head_vars.add(("v", var["d"]))
                 if kind == "minit" and ev.get("field") and fn.cls:
-                    changed |= self._add(("f", fn.cls, ev["field"]), self.labels(tree))
+                    changed |= self._add(("f", fn.cls, ev["field"]), self._labels(tree), b.id)
                 if tree is None:
                     continue
                 for n in walk(tree):
                     k = n.get("k")
+                    at = n.get("b", b.id)
+                    self._at = at
                     if k == "bin" and n.get("op") in ASSIGN_OPS:
-                        changed |= self._add(self.place_of(n.get("l")),
-                                             self.labels(n.get("r")))
+                        rl = self._labels(n.get("r"))
+                        changed |= self._add(self.place_of(n.get("l")), rl, at)
+                        changed |= self._add(self.owner_param_place(n.get("l")),
+                                             {l for l in rl if l[0] != "param"}, at)
                         if n.get("op") in ("+=", "-="):
                             self.counters.add(self.place_of(n.get("l")))
                     elif k == "un" and n.get("op") in ("++", "--"):
                         self.counters.add(self.place_of(n.get("e")))
                     elif k == "call":
-                        changed |= self._call_effects(n)
+                        changed |= self._call_effects(n, at)
             if not changed:
                 break
+        self._at = None
 
-    def _call_effects(self, n):
+    def _call_effects(self, n, at=None):
         eng = self.eng
         base = strip_targs(n.get("fn") or "")
         args = n.get("args", [])
@@ -283,10 +362,18 @@ class FnTaint:
                             ba = ba.get("e")
                         if isinstance(ba, dict) and "v" in ba:
                             info["iw"] = min(info.get("iw", 64), int(ba["v"]))
-                    changed |= self._add(place, {lab})
+                    changed |= self._add(place, {lab}, at)
+                    changed |= self._add(self.owner_param_place(args[o]), {lab}, at)
+        # member assignment operators: obj (=|+=|...) arg
+        if n.get("opcall") and "obj" in n and args:
+            short = base.rsplit("::", 1)[-1]
+            if short.startswith("operator") and short[8:] in ASSIGN_OPS:
+                changed |= self._add(self.place_of(n["obj"]), self.labels(args[0]), at)
+                if short[8:] in ("+=", "-="):
+                    self.counters.add(self.place_of(n["obj"]))
         # std::copy / memcpy style: dst gets src labels
         if base in ("memcpy", "std::memcpy", "memmove", "__builtin_memcpy") and len(args) >= 2:
-            changed |= self._add(self.place_of(args[0]), self.labels(args[1]))
+            changed |= self._add(self.place_of(args[0]), self.labels(args[1]), at)
         # callee out-summaries
         for tgt in eng.F.targets(n):
             s = eng.summaries.get(tgt.key)
@@ -303,7 +390,7 @@ class FnTaint:
                 for j in deps:
                     if isinstance(j, int) and j < len(args):
                         labs |= self.labels(args[j])
-                changed |= self._add(self.place_of(args[i]), labs)
+                changed |= self._add(self.place_of(args[i]), labs, at)
             if n.get("obj") is not None and s["out_fields"] and not n.get("objthis"):
                 # callee stores stream data in fields of the object
                 pass
@@ -327,6 +414,19 @@ class FnTaint:
         return lab
 
     # -- guards ---------------------------------------------------------------
+    def atoms(self, cond, outcome):
+        """All relational atoms known to hold when `cond` evaluates to
+        `outcome`: `a || b` false gives both negations, `a && b` true gives
+        both (conditions with temporaries are joined into one value by the
+        CFG builder instead of being split into short-circuit blocks)."""
+        tree, oc = _strip_not(cond, outcome)
+        if isinstance(tree, dict) and tree.get("k") == "bin" and tree.get("op") in ("||", "&&"):
+            if (tree["op"] == "||" and not oc) or (tree["op"] == "&&" and oc):
+                return self.atoms(tree.get("l"), oc) + self.atoms(tree.get("r"), oc)
+            return []
+        a = self.atom(tree, oc)
+        return [a] if a is not None else []
+
     def atom(self, cond, outcome):
         """Normalise a condition under an outcome to (lhs, op, rhs) or None."""
         tree, oc = _strip_not(cond, outcome)
@@ -361,7 +461,7 @@ class FnTaint:
     def label_small_by_type(self, lab):
         info = self.label_info.get(lab) or self.eng.label_info.get(lab)
         if info and info.get("iw") is not None and info["iw"] <= 16:
-            return "G3 by type: %d-bit source" % info["iw"]
+            return "G3T small by type: %d-bit source" % info["iw"]
         return None
 
     def bounded(self, lab, block, kinds, depth=0):
@@ -383,7 +483,7 @@ class FnTaint:
             dk = (info.get("fn"), info.get("var"))
             if "DECL" in kinds and dk in eng.declared:
                 return "declared element count (%s in %s)" % (dk[1], dk[0])
-            if "G3" in kinds:
+            if "G3T" in kinds:
                 s = self.label_small_by_type(lab)
                 if s:
                     return s
@@ -393,29 +493,91 @@ class FnTaint:
             if isinstance(outcome, tuple):
                 # switch edge: equality pin on the switch value
                 if outcome[0] == "case" and ("G4" in kinds or "G3" in kinds):
-                    if lab in self.labels(cond):
+                    if lab in self.labels(cond, cb.id):
                         return "G4 switch case %s at %s" % (outcome[1], self.fn.site(cb.tloc or ""))
                 continue
-            at = self.atom(cond, outcome)
-            if at is None:
+            ats = self.atoms(cond, outcome)
+            if not ats:
                 # validation helper: bool call taking the value (guard summary)
                 g = self._helper_guard(cond, outcome, lab, kinds)
                 if g:
                     return g + " at %s" % self.fn.site(cb.tloc or "")
                 continue
-            l, op, r = at
-            for side, other, o in ((l, r, op), (r, l, FLIP[op])):
-                if side is None or other is None:
+            for l, op, r in ats:
+                for side, other, o in ((l, r, op), (r, l, FLIP[op])):
+                    if side is None or other is None:
+                        continue
+                    if lab not in self.labels(side, cb.id):
+                        continue
+                    if o not in ("<", "<=", "=="):
+                        continue
+                    why = self._other_kind(other, cb.id, kinds, o, depth, lab)
+                    if why:
+                        return "%s `%s` (%s edge) at %s" % (
+                            why, cb.condsrc, "true" if outcome else "false",
+                            self.fn.site(cb.tloc or ""))
+        return self._conditional_guard(lab, block, kinds, depth)
+
+    def _conditional_guard(self, lab, block, kinds, depth):
+        """A guard nested under a context condition P (`if (P) { if (x >= n)
+        return false; }`) protects a sink that is itself dominated by an
+        equivalent test of P: paths that bypass the guard have P false."""
+        fn = self.fn
+        sink_edges = dominating_edges(fn, block)
+        sink_atoms = []
+        for cb, oc, cond in sink_edges:
+            if isinstance(oc, tuple):
+                continue
+            sink_atoms += self.atoms(cond, oc)
+        if not sink_atoms:
+            return None
+        sink_edge_ids = {(cb.id, oc) for cb, oc, _ in sink_edges if not isinstance(oc, tuple)}
+        for cb in fn.blocks.values():
+            if cb.cond is None or len(cb.succ) != 2 or cb.labels is not None:
+                continue
+            if cb.id not in fn.reach_all():
+                continue
+            for outcome in (True, False):
+                passing = cb.succ[0] if outcome else cb.succ[1]
+                failing = cb.succ[1] if outcome else cb.succ[0]
+                if passing is None or failing is None or passing == failing:
                     continue
-                if lab not in self.labels(side):
+                if (cb.id, outcome) in sink_edge_ids:
                     continue
-                if o not in ("<", "<=", "=="):
+                # the failing outcome must never reach the sink
+                if block in fn.reachable(start=failing):
                     continue
-                why = self._other_kind(other, cb.id, kinds, o, depth, lab)
-                if why:
-                    return "%s `%s` (%s edge) at %s" % (
+                if block not in fn.reachable(start=passing):
+                    continue
+                why = None
+                for l, op, r in self.atoms(cb.cond, outcome):
+                    for side, other, o in ((l, r, op), (r, l, FLIP[op])):
+                        if side is None or other is None:
+                            continue
+                        if lab not in self.labels(side, cb.id) or o not in ("<", "<=", "=="):
+                            continue
+                        why = self._other_kind(other, cb.id, kinds, o, depth, lab)
+                        if why:
+                            break
+                    if why:
+                        break
+                if not why:
+                    continue
+                # context of the guard that the sink does not share
+                ctx = [(b2, oc2, c2) for b2, oc2, c2 in dominating_edges(fn, cb.id)
+                       if not isinstance(oc2, tuple) and (b2.id, oc2) not in sink_edge_ids]
+                ok = True
+                for b2, oc2, c2 in ctx:
+                    a2s = self.atoms(c2, oc2)
+                    if not a2s or not all(any(_same_atom(a2, sa) for sa in sink_atoms)
+                                          for a2 in a2s):
+                        ok = False
+                        break
+                if ok and ctx:
+                    return "%s `%s` (%s edge) at %s, under context re-tested before the sink (%s)" % (
                         why, cb.condsrc, "true" if outcome else "false",
-                        self.fn.site(cb.tloc or ""))
+                        fn.site(cb.tloc or ""),
+                        "; ".join("`%s`" % b2.condsrc for b2, _, _ in ctx))
         return None
 
     def _other_kind(self, other, cblock, kinds, op, depth, lab):
@@ -428,7 +590,7 @@ class FnTaint:
             if op == "==" and "G3" in kinds and abs(c) <= SMALL_CONST:
                 return "G3 small constant %d" % c
             return None
-        labs = self.labels(other)
+        labs = self.labels(other, cblock)
         if lab in labs:
             return None
         if REM in labs:
@@ -441,7 +603,7 @@ class FnTaint:
         if op_place is not None and op_place[0] == "v" and op_place in self.counters:
             return None          # a loop counter is not an existing count
         # every stream label on the other side must itself be bounded there
-        sub_kinds = tuple(sorted(set(kinds) | {"G1", "G3", "DECL"}))
+        sub_kinds = tuple(sorted(set(kinds) | {"G1", "G3", "G3T", "DECL"}))
         for l2 in labs:
             if is_src(l2):
                 if not self.bounded(l2, cblock, sub_kinds, depth + 1):
@@ -458,9 +620,53 @@ class FnTaint:
             if not s:
                 continue
             for i, gk in s["guards"].items():
-                if i < len(args) and lab in self.labels(args[i]) and (set(gk) & set(kinds)):
+                if i < len(args) and lab in self.labels(args[i], tree.get("b")) and (set(gk) & set(kinds)):
                     return "%s via validation helper %s" % (sorted(set(gk) & set(kinds))[0], tgt.base)
         return None
+
+
+def _tree_eq(a, b):
+    if not isinstance(a, dict) or not isinstance(b, dict):
+        return a == b
+    while a.get("k") == "icast":
+        a = a.get("e")
+        if not isinstance(a, dict):
+            return False
+    while b.get("k") == "icast":
+        b = b.get("e")
+        if not isinstance(b, dict):
+            return False
+    if a.get("k") != b.get("k"):
+        return False
+    k = a["k"]
+    if k == "var":
+        return a.get("d") == b.get("d") and a.get("g") == b.get("g")
+    if k == "field":
+        return a.get("n") == b.get("n") and a.get("cls") == b.get("cls") and \
+            bool(a.get("this")) == bool(b.get("this")) and _tree_eq(a.get("base"), b.get("base"))
+    if k == "lit":
+        return a.get("v") == b.get("v") and a.get("s") == b.get("s")
+    if k in ("un", "bin"):
+        return a.get("op") == b.get("op") and _tree_eq(a.get("e"), b.get("e")) and \
+            _tree_eq(a.get("l"), b.get("l")) and _tree_eq(a.get("r"), b.get("r"))
+    if k == "call":
+        if a.get("m") != b.get("m") or not _tree_eq(a.get("obj"), b.get("obj")):
+            return False
+        aa, bb = a.get("args", []), b.get("args", [])
+        return len(aa) == len(bb) and all(_tree_eq(x, y) for x, y in zip(aa, bb))
+    if k in ("cast", "copy"):
+        return _tree_eq(a.get("e"), b.get("e"))
+    return False
+
+
+def _same_atom(a, b):
+    """(l, op, r) equal up to mirroring."""
+    (l1, o1, r1), (l2, o2, r2) = a, b
+    if o1 == o2 and _tree_eq(l1, l2) and _tree_eq(r1, r2):
+        return True
+    if o1 == FLIP[o2] and _tree_eq(l1, r2) and _tree_eq(r1, l2):
+        return True
+    return False
 
 
 class Engine:
@@ -515,7 +721,7 @@ class Engine:
         s = self._empty()
         # returns
         for b, ev in fn.returns():
-            labs = ft.labels(ev.get("e"))
+            labs = ft.labels(ev.get("e"), b.id)
             for l in labs:
                 if l[0] == "param":
                     s["ret_deps"].add(l[1])
@@ -532,7 +738,7 @@ class Engine:
                 continue
             if t.startswith("const ") and t.endswith("&"):
                 continue
-            labs = ft.place_labels.get(("v", p["d"]), set())
+            labs = set(ft.place_labels.get(("v", p["d"]), {}))
             deps = set()
             for l in labs:
                 if is_src(l):
@@ -546,6 +752,8 @@ class Engine:
         # sinks on pseudo labels
         for finder in self.sink_finders:
             for sk in finder(self, ft, fn):
+                if sk.pre:
+                    continue
                 for l in sk.labels:
                     if l[0] not in ("param", "field"):
                         continue
@@ -569,7 +777,7 @@ class Engine:
                 if isinstance(e, dict) and e.get("k") == "lit" and e.get("v") == 0:
                     continue
                 n_ok += 1
-                why = ft.bounded(lab, b.id, ("G1", "G2", "G3"))
+                why = ft.bounded(lab, b.id, ("G1", "G2", "G3", "G4"))
                 if not why:
                     ok = False
                     break
